@@ -797,6 +797,11 @@ def _new_uninit(m, a, c):
     return ()
 
 
+@reg("std::slice::from_ref", "core::slice::from_ref")
+def _slice_from_ref(m, a, c):
+    return PyVec([a[0]])
+
+
 @reg("core::slice::<impl [T]>::last")
 def _last(m, a, c):
     v = deref(a[0])
@@ -1066,6 +1071,23 @@ def _iter_adapt(name):
             return some(best)
         if name == "last":
             return some(xs[-1]) if xs else NONE
+        if name in ("cmp", "partial_cmp", "eq", "ne"):
+            ys = items_of(a[1])
+            if name in ("eq", "ne"):
+                same = len(xs) == len(ys)
+                if same:
+                    for x, y in zip(xs, ys):
+                        r = _eq(m, [x, y], c)
+                        if isinstance(r, Term):
+                            r = m.decide(r)
+                        if not r:
+                            same = False
+                            break
+                return same if name == "eq" else not same
+            r = _cmp_vals(PyVec(list(xs)), PyVec(list(ys)), m)
+            if name == "partial_cmp":
+                return Term("some", r) if isinstance(r, Term) else some(r)
+            return r
         if name == "unzip":
             return (PyVec([x[0] for x in xs]), PyVec([x[1] for x in xs]))
         if name == "position":
@@ -1090,7 +1112,7 @@ def _iter_adapt(name):
 
 for _nm in ["enumerate", "rev", "map", "filter", "filter_map", "cloned", "copied", "chain", "zip",
             "skip", "take", "collect", "count", "sum", "all", "any", "fold", "for_each", "max", "min",
-            "last", "unzip", "position", "find", "by_ref", "peekable", "fuse", "max_by_key", "min_by_key", "try_fold"]:
+            "last", "unzip", "position", "find", "cmp", "partial_cmp", "eq", "ne", "by_ref", "peekable", "fuse", "max_by_key", "min_by_key", "try_fold"]:
     TRAIT_TABLE[("std::iter::Iterator", _nm)] = _iter_adapt(_nm)
     SEMANTIC_FIRST.add(("std::iter::Iterator", _nm))
 TRAIT_TABLE[("std::iter::DoubleEndedIterator", "rev")] = _iter_adapt("rev")
